@@ -1,3 +1,19 @@
-From Verif Require Import Base.
-Theorem placeholder : True. Proof. exact I. Qed.
-Print Assumptions placeholder.
+(* C20 — no data races inside panrpc under concurrent use (PARTIAL: lock-set discipline).
+   If every pair of conflicting access sites of the table shares a mutex or is ordered by a
+   publication edge, then no state of the machine in which the threads respect the table has a
+   race.  The table is re-extracted from the sources on every run (bin/vlib/locksets.py ->
+   work/C20/Accesses.v) and [discipline accesses = true] is re-checked there by vm_compute.
+   Not covered: completeness of the extractor's notion of shared location, channel-internal
+   synchronisation (the Go runtime's), the Go memory model itself. *)
+From Verif Require Import Base Lockset LocksetProofs.
+
+Theorem lockset_sound :
+  forall tbl s, discipline tbl = true -> respects tbl s -> ~ race tbl s.
+Proof. exact lockset_sound_lemma. Qed.
+Print Assumptions lockset_sound.
+
+(* non-vacuity: an unguarded writer and a reader of one location are rejected by the discipline *)
+Example unguarded_rejected : discipline [mkAcc 0 true [] false; mkAcc 0 false [1] false] = false.
+Proof. reflexivity. Qed.
+Example guarded_accepted : discipline [mkAcc 0 true [1] false; mkAcc 0 false [1; 2] false] = true.
+Proof. reflexivity. Qed.
